@@ -3,9 +3,17 @@ from vlib import oracles, reharness
 from vlib.harness import Harness, register
 from harnesses.c01_documents import OUT, STUBS, SYM, _fns
 
-PLANS_Q = ["scan2", "bare", "cleanup", "nested_runs", "staged_monitor"]
+PLANS_Q = ["scan2", "bare", "cleanup", "nested_runs", "staged_monitor", "wait_move_on"]
 PLANS_T = PLANS_Q + ["count2", "flymon", "grid2x2", "fly1", "adaptive"]
 register(Harness("c08_sweep", "C08", lambda P: reharness.make_sweep(P, oracles.c08_interrupted, plans=PLANS_Q if P["tier"] == "quick" else PLANS_T),
                  {"quick": dict(shards=16, past_end=4, budget_s=300, per_path_s=30), "thorough": dict(shards=48, past_end=6, budget_s=3000, per_path_s=30)},
                  goals=["paused", "resumed", "suspended", "interrupted", "request-after-last-message"], functions=_fns, mode="schedule", symbolic=SYM,
+                 out_of_bound=OUT, stubs=STUBS, require_exhaustive=True))
+from vlib import corpus  # noqa: E402
+
+register(Harness("c08_second_call", "C08", lambda P: reharness.make_sweep(P, oracles.c08_interrupted, plans=["scan2", "bare"] if P["tier"] == "quick" else PLANS_T,
+                                                                           kinds=["pause", "defer", "suspend"], decisions=["resume", "abort"],
+                                                                           run_kw=dict(prelude=corpus.clearing_prelude)),
+                 {"quick": dict(shards=16, budget_s=300, per_path_s=30), "thorough": dict(shards=32, budget_s=3000, per_path_s=30)},
+                 goals=["paused", "resumed"], functions=_fns, mode="schedule", symbolic=SYM + "; the call under test is preceded, on the same engine, by a completed call that used clear_checkpoint",
                  out_of_bound=OUT, stubs=STUBS, require_exhaustive=True))
